@@ -552,7 +552,21 @@ fn children_items_ref(children: &[Child]) -> String {
 fn tag_ref(tag: &Tag) -> String {
     match tag {
         Tag::Html(s) | Tag::Custom(s) => format!("R.tag.el({})", js_str(s)),
-        Tag::Bound(s) | Tag::Member(s) => format!("R.tag.val({s})"),
+        Tag::Bound(s) => format!("R.tag.val({s})"),
+        Tag::Member(s) => {
+            // JSX member names may contain `-`: the reference uses bracket access for those
+            let mut parts = s.split('.');
+            let mut e = parts.next().unwrap_or("").to_string();
+            for p in parts {
+                if p.chars().all(|c| c.is_ascii_alphanumeric() || c == '_' || c == '$') {
+                    e.push('.');
+                    e.push_str(p);
+                } else {
+                    e.push_str(&format!("[{}]", js_str(p)));
+                }
+            }
+            format!("R.tag.val({e})")
+        }
         Tag::Unbound(s) => format!("R.tag.unbound({})", js_str(s)),
         Tag::FragmentTag => "R.tag.frag()".into(),
         Tag::KeepAliveBound => "R.tag.keepAlive(KeepAlive)".into(),
